@@ -58,6 +58,8 @@ func c11exec(c *h.Ctx, cs *h.Case) {
 	holding := map[int]chan struct{}{} // instance -> gate its handlers wait at (`hold`/`release`)
 	atGate := map[int]int{}            // handlers of the instance blocked at the gate
 	var late []string
+	accN := map[string]int{} // token id -> messages handed to the instance
+	entN := map[string]int{} // token id -> handler invocations begun
 	fix.ResetRecs()
 	// gate: token id -> thread key; the constructor of that instance parks at "ctor" until `ctorret`
 	gate := map[string]string{}
@@ -73,6 +75,7 @@ func c11exec(c *h.Ctx, cs *h.Case) {
 			if _, ok := msg.Msg.(*fix.M3); ok {
 				mu.Lock()
 				handed++
+				accN[rec.Tni.Token().ID().String()]++
 				mu.Unlock()
 			}
 		}
@@ -82,6 +85,7 @@ func c11exec(c *h.Ctx, cs *h.Case) {
 			}
 			id := rec.Tni.Token().ID()
 			mu.Lock()
+			entN[id.String()]++
 			k := -1
 			for kk, t := range tokens {
 				if t.ID() == id {
@@ -195,8 +199,13 @@ func c11exec(c *h.Ctx, cs *h.Case) {
 		} else if k >= 500 {
 			// a run of the protocol whose constructor returns an error
 			t = fix.FailTokenFor(t)
+		} else if k >= 300 {
+			// a run of the recording protocol with a Shutdown() that returns an error
+			t = fix.ShutErrTokenFor(t)
 		}
+		mu.Lock() // the handlers' OnEnter reads the map
 		tokens[k] = t
+		mu.Unlock()
 		return t
 	}
 	failing := func(k int) bool { return k >= 500 && k < 1000 }
@@ -271,6 +280,45 @@ func c11exec(c *h.Ctx, cs *h.Case) {
 			}
 		}
 		return fmt.Sprintf("tree=%s live=%s done=%s constructed=%s handed=%d", ts, h.Ints(live), h.Ints(done), h.Ints(cons), hn)
+	}
+	// reader goroutines of tree node instances in this process (every case runs in its own process)
+	readers := func() int {
+		buf := make([]byte, 1<<20)
+		n := runtime.Stack(buf, true)
+		return strings.Count(string(buf[:n]), "(*TreeNodeInstance).dispatchMsgReader(")
+	}
+	liveCount := func() int {
+		n := 0
+		for _, t := range tokens {
+			if ov.VerifInstanceState(t) == "live" {
+				n++
+			}
+		}
+		return n
+	}
+	// settle: the reader of instance k has gone as far as it can — while the instance is listed: it stands in a
+	// handler at the gate, or nothing is queued; once the instance has finished: its reader has ended (as many
+	// readers as listed instances) or a handler was entered all the same. No sleeps: polls state, bounded.
+	settle := func(k int) {
+		tok, ok := tokens[k]
+		if !ok {
+			return
+		}
+		id := tok.ID().String()
+		for dl := time.Now().Add(3 * time.Second); time.Now().Before(dl); time.Sleep(200 * time.Microsecond) {
+			mu.Lock()
+			at, more, nl := atGate[k] > 0, accN[id] > entN[id], len(late)
+			held := holding[k] != nil
+			mu.Unlock()
+			if ov.VerifInstanceState(tok) == "live" {
+				if !held || at || !more {
+					return
+				}
+			} else if nl > 0 || at || readers() <= liveCount() {
+				return
+			}
+		}
+		c.Count("settle-timeout")
 	}
 	doOp := func(op string) bool {
 		t0 := time.Now()
@@ -368,6 +416,7 @@ func c11exec(c *h.Ctx, cs *h.Case) {
 				return false
 			}
 			checkFailed(k)
+			settle(k)
 			o := obs()
 			if wasDone {
 				mu.Lock()
@@ -428,6 +477,9 @@ func c11exec(c *h.Ctx, cs *h.Case) {
 			mu.Lock()
 			doneReturned[k] = strict
 			mu.Unlock()
+			if !strict {
+				settle(k)
+			}
 			cs.Impl = append(cs.Impl, obs())
 		case len(tk) == 4 && tk[1] == "donecb" && (tk[3] == "0" || tk[3] == "1"):
 			// Done() of an instance that has an OnDoneCallback: `0` = the callback says "not yet" (nothing may
@@ -487,10 +539,16 @@ func c11exec(c *h.Ctx, cs *h.Case) {
 			g := holding[k]
 			mu.Unlock()
 			if g != nil {
-				select {
-				case g <- struct{}{}:
-					time.Sleep(2 * time.Millisecond) // the reader goes on to the next queued message, if any
-				case <-time.After(20 * time.Millisecond):
+				settle(k) // a handler that is on its way to the gate gets there first
+				mu.Lock()
+				at := atGate[k] > 0
+				mu.Unlock()
+				if at {
+					select {
+					case g <- struct{}{}:
+						settle(k) // the reader goes on to the next queued message, if any — or ends
+					case <-time.After(3 * time.Second):
+					}
 				}
 			}
 			obs() // evaluates the oracle
@@ -545,7 +603,9 @@ func c11exec(c *h.Ctx, cs *h.Case) {
 					cs.Fail("constructor-not-run", "CreateProtocol did not call the constructor")
 					return true
 				}
+				mu.Lock()
 				tokens[k] = tok
+				mu.Unlock()
 				everUsed[k] = true
 				if !awaitFlushed() {
 					return false
@@ -554,13 +614,19 @@ func c11exec(c *h.Ctx, cs *h.Case) {
 				cs.Impl = append(cs.Impl, obs())
 				return true
 			}
-			pi, err := cl.L.CreateProtocol(fix.ProtoName, tree)
+			name := fix.ProtoName
+			if k >= 300 {
+				name = fix.ShutErrProtoName
+			}
+			pi, err := cl.L.CreateProtocol(name, tree)
 			if err != nil {
 				cs.Impl = append(cs.Impl, "err")
 				cs.Fail("local-start-failed", err.Error())
 				return true
 			}
+			mu.Lock()
 			tokens[k] = pi.Token()
+			mu.Unlock()
 			everUsed[k] = true
 			if !awaitFlushed() {
 				return false
@@ -676,6 +742,11 @@ func c11gen(c *h.Ctx, yield func(*h.Case)) {
 	// the instance finishes inside the handler of a message that has others queued behind it: they are dropped
 	yield(&h.Case{Class: "corpus-done-with-backlog", Ops: []string{"c11 localstart 1", "c11 hold 2", "c11 arrive 2 5", "c11 thread 2 5", "c11 arrive 2 6", "c11 thread 2 6",
 		"c11 arrive 2 7", "c11 thread 2 7", "c11 arrive 2 8", "c11 thread 2 8", "c11 release 2", "c11 done 2", "c11 release 2", "c11 release 2", "c11 release 2"}})
+	// … the same with a protocol whose Shutdown() returns an error: the reader must stop all the same
+	yield(&h.Case{Class: "corpus-done-with-backlog", Ops: []string{"c11 localstart 1", "c11 hold 300", "c11 arrive 300 5", "c11 thread 300 5", "c11 arrive 300 6", "c11 thread 300 6",
+		"c11 arrive 300 7", "c11 thread 300 7", "c11 release 300", "c11 done 300", "c11 release 300", "c11 release 300", "c11 arrive 300 8", "c11 thread 300 8"}})
+	yield(&h.Case{Class: "corpus-done-with-backlog", Ops: []string{"c11 localstart 301", "c11 hold 301", "c11 arrive 301 5", "c11 thread 301 5", "c11 arrive 301 6", "c11 thread 301 6",
+		"c11 done 301", "c11 release 301", "c11 release 301"}})
 	// two runs share the tree: a refused Done(), a real one, a repeated one; the other run goes on and a peer still
 	// gets the tree; after the last one the peer is served during the grace period only
 	yield(&h.Case{Class: "corpus-others-unaffected", Ops: []string{"c11 localstart 1", "c11 arrive 2 5", "c11 thread 2 5", "c11 donecb 1 0", "c11 peerreq", "c11 donecb 1 1",
